@@ -14,6 +14,9 @@ def main(tier, seed):
     k = 3 if tier == "quick" else 4
     for rules, on_step in plan:
         jobs.append(("props.timeouts", "run_rules", (rules, on_step, dict(policy="fifo", k=k, max_paths=600 if tier == "quick" else 6000), "C19")))
+    # the timed task sits in a later step, opened a symbolic time after the process start: the rules count from the TASK's start
+    for rules, on_step in ((["2s"], False), (["1m"], True), (["1s", "1s"], "both")):
+        jobs.append(("props.timeouts", "run_rules", (rules, on_step, dict(policy="fifo", k=k, late=True, max_paths=600 if tier == "quick" else 6000), "C19")))
     # "not for finished tasks" under concurrency: a timer tick races with the client completing the timed act (either side pre-empted at one lock operation)
     jobs.append(("props.race", "run_pair_race", ("tmo_act", dict(oracles=("c03",), keep=True, with_tick=True, max_paths=900 if tier == "quick" else 4000, seed=seed), "C19")))
     c.run_jobs(jobs)
@@ -23,4 +26,4 @@ def main(tier, seed):
         rule="one path = rule set on an act or a step x sequence of k events from {tick, answer the timed act} x outcome class of every elapsed-time comparison; the clock is one "
              "symbolic variable per reading (non-decreasing); 'never early' and 'fires when due' are validity queries over those variables",
         assumptions=ASSUME + ["the tick is emit_tick -> the real on_tick closure; real timer jitter is not modelled", "durations are small enough for value*unit*1000 to fit i64"],
-        bounds=dict(rule_sets=[r for r, _ in plan], events=k, units="s m h d"))
+        bounds=dict(rule_sets=[r for r, _ in plan], events=k, units="s m h d", placement="timed task in the first step; 3 rule sets also with the timed task in a second step opened a symbolic time after the start"))
